@@ -16,7 +16,9 @@ ASSUMPTIONS = ["nazalog.Assert has the default behaviour (log only)",
                "rtsp.BaseInSessionTimestampFilterFlag=false in the in-session op (AvPacketQueue belongs to C07)",
                "ops named c13x.* drive library surfaces that are not modelled (nazahttp, net/http, encoding/json): "
                "the model side is the constant 'alive'; they are covered by mutation testing only",
-               "memory exhaustion below Go's makeslice limit is outside the model"]
+               "memory exhaustion below Go's makeslice limit is outside the model",
+               "c13.udpsess hands datagrams synchronously to the callbacks nazanet.UdpConnection.RunLoop calls (verif hook) on sessions whose "
+               "UDP sockets are real loopback sockets; c13x.udpsess / c13x.pulludp send the same datagrams through the loopback interface"]
 FULL_OUTPUT = True
 TIMEOUT = 1500
 
@@ -544,6 +546,21 @@ def gen_udpsess(tier, rng):
             evs.append(pk(src, b))
         yield Case(udp_line(A_PCMA, V_H264, evs, op="c13x.udpsess"), cls="x-udpsess")
 
+    # --- a real rtsp.PullSession over UDP against a scripted origin: the origin (or anybody who can send to the
+    #     client ports) sends these datagrams to the RTP / RTCP port of the first SETUP
+    pull = [(A_PCMA, V_NONE, [pk("r", a), pk("c", sa_), pk("r", rtp(0, 1, 0, 0x33, b"\xff")), pk("c", rtcp_sr(0x33, 1, 2, 3, 4, 5))]),
+            (A_NONE, V_H264, [pk("r", v), pk("c", sv_), pk("r", rtp(0, 1, 0, 0x33, b"\xff")), pk("c", rtcp_sr(0x33, 1, 2, 3, 4, 5)), pk("c", rtcp_sr(0, 1, 2, 3, 4, 5))]),
+            (A_PCMA, V_H264, [pk("r", v), pk("c", sv_), pk("r", a), pk("c", sa_), pk("c", sa_[:5]), pk("r", b"\x80")]),
+            (A_AAC, V_H265, [pk("c", rtcp_sr(0, 1, 2, 3, 4, 5)), pk("r", rtp(97, 1, 0, 0x11, au_payload([b"\x21"]))), pk("c", sa_), pk("r", rtp(98, 1, 0, 0x22, b"\x26\x01\x02")), pk("c", sv_)])]
+    for acfg, vcfg, evs in pull:
+        yield Case(udp_line(acfg, vcfg, evs, op="c13x.pulludp"), cls="x-pulludp")
+    for _ in range(4 if quick else 200):
+        acfg, vcfg = rng.choice([(A_PCMA, V_NONE), (A_NONE, V_H264), (A_PCMA, V_H264)])
+        evs = []
+        for _ in range(rng.randrange(2, 7)):
+            b = rng.choice([a, v, sa_, sv_, rtp(0, 1, 0, 0x33, b"\xff"), rtcp_sr(0x33, 1, 2, 3, 4, 5), sa_[:9], mutate(rng, sa_), mutate(rng, v, 12)])
+            evs.append(pk(rng.choice(["r", "c"]), b))
+        yield Case(udp_line(acfg, vcfg, evs, op="c13x.pulludp"), cls="x-pulludp")
 
 def mutate(rng, b, hdr=0):
     """one structural mutation: truncate, set a byte / 16-bit field to an extreme, flip, insert, delete"""
@@ -1229,7 +1246,7 @@ def nontrivial(c, out):
         o = out.split(" ")
         evs = o[1] if len(o) > 1 else ""
         return "%s|%s|%s|k%d|e%d|av%d" % (c.cls, f[1], outcome_class(out), min(evs.count("k"), 6), min(evs.count("e"), 4), min(evs.count("av:"), 6))
-    if f[0] == "c13x.udpsess":
+    if f[0] in ("c13x.udpsess", "c13x.pulludp"):
         return "%s|%s/%s|%s|%d" % (f[0], f[1], f[4], outcome_class(out), min(f[7].count(","), 8))
     n = tok_len(f[-1]) if len(f[-1]) < 4000 else 9999
     return "%s|%s|%s|%d" % (f[0], shape, outcome_class(out), min(n, 40))
@@ -1272,7 +1289,7 @@ def neighbors(c, rng):
             for _ in range(10):
                 yield "c13.ps %s %s" % (f[1], ",".join(items[:k] + [hex_tok(mutate(rng, b, 12))] + items[k + 1:]))
         return
-    if f[0] in ("c13.udpsess", "c13x.udpsess"):
+    if f[0] in ("c13.udpsess", "c13x.udpsess", "c13x.pulludp"):
         if f[7] == "-":
             return
         items = f[7].split(",")
